@@ -19,7 +19,7 @@ Import ListNotations.
 (* ------------------------------------------------------------------ *)
 Inductive psite :=
 | SliceContent          (* operator_slice.go:56   lhsNode.Content[i]                         *)
-| TraverseContent       (* operator_traverse_path.go:212  node.Content[indexToUse]           *)
+| TraverseContent       (* operator_traverse_path.go traverseArrayWithIndices  node.Content[indexToUse]           *)
 | TraverseRhsFront      (* operator_traverse_path.go:100  rhs.MatchingNodes.Front().Value    *)
 | SliceNumberFront      (* operator_slice.go:16   result.MatchingNodes.Front().Value         *)
 | CollectObjectContent  (* operator_collect_object.go:39/41  candidateNode.Content[i]        *)
@@ -459,6 +459,17 @@ Definition c_parse_int (s : str) : str :=
   match parse_int64 s with
   | Some z => cls_ok ++ 32 :: dec_of_Z z
   | None => cls_err
+  end.
+
+(* what `.["text"]` shows on the 20-element array [0..19] *)
+Definition c_parse_int_obs (s : str) : str :=
+  match parse_int64 s with
+  | None => cls_err
+  | Some z =>
+      if (z <? -20)%Z then cls_err
+      else if (z <? 0)%Z then cls_ok ++ 32 :: dec_of_Z (20 + z)
+      else if (z <? 20)%Z then cls_ok ++ 32 :: dec_of_Z z
+      else cls_ok ++ 32 :: str_of_string "null"%string
   end.
 
 (* `"s" * count | length` with mem taken as unbounded for small products *)
